@@ -330,3 +330,21 @@ pub fn write(dir: &[DirEntry], streams: &[Vec<u8>]) -> (Vec<u8>, Vec<(u64, u64)>
 pub fn all_streams(img: &[u8], l: &Layout) -> Vec<Vec<u8>> {
     l.dir.iter().map(|e| stream_bytes(img, l, e).unwrap_or_default()).collect()
 }
+
+
+/// A fresh directory entry (for synthesized containers): `typ` 5 = root, 2 = stream.
+pub fn make_dir_entry(index: usize, name: &str, typ: u8, child: u32) -> DirEntry {
+    let mut raw = [0u8; 128];
+    let units: Vec<u16> = name.encode_utf16().take(31).collect();
+    for (i, u) in units.iter().enumerate() {
+        raw[2 * i..2 * i + 2].copy_from_slice(&u.to_le_bytes());
+    }
+    raw[64..66].copy_from_slice(&(((units.len() + 1) * 2) as u16).to_le_bytes());
+    raw[66] = typ;
+    raw[67] = 1; // black
+    for k in [68usize, 72] {
+        raw[k..k + 4].copy_from_slice(&FREESECT.to_le_bytes());
+    }
+    raw[76..80].copy_from_slice(&child.to_le_bytes());
+    DirEntry { index, offset: 0, raw, name: name.to_string(), typ, start: 0, size: 0 }
+}
